@@ -636,6 +636,19 @@ impl UnstableBlocks {
 //@|     blocks.next_block_headers == old(blocks).next_block_headers,
 //@end
 
+impl BlockTree<CachedBlock> {
+    // [trusted:assumed-contract] BlockTree::find_mut (blocktree.rs:571; recursion through `iter_mut`, returning a `&mut` into the tree):
+    // the first subtree (preorder) whose root has the hash, with its distance from the root; the borrow is the only way the tree can
+    // change (if the borrowed subtree is left as it is, so is the tree)
+    #[verifier::external_body]
+    fn find_mut<'a>(&'a mut self, blockhash: &BlockHash) -> (r: Option<(&'a mut BlockTree<CachedBlock>, u32)>)
+        ensures
+            r is Some <==> old(self).contains(*blockhash),
+            r matches Some(p) ==> *p.0 == old(self).subtree_at(old(self).idx_path_to(*blockhash)) && p.1 == old(self).idx_path_to(*blockhash).len()
+                && (*final(p.0) == *p.0 ==> *final(self) == *old(self)),
+            r is None ==> *final(self) == *old(self),
+    { unimplemented!() }
+}
 // the tree after a new leaf `b` has been appended below the first block with hash b.sprev()
 uninterp spec fn tree_extended(t: BlockTree<CachedBlock>, hash: BlockHash, header: Header) -> BlockTree<CachedBlock>;
 
